@@ -1,5 +1,6 @@
 import N0Verif.Proofs.XPathCreate
 import N0Verif.Proofs.XPathHistory
+import N0Verif.Proofs.XPathCreate2
 /-!
 # C03 — assigning to a missing xpath creates exactly the missing chain; `new()` appends
 
@@ -157,18 +158,17 @@ theorem C03_read_back_elem (cls : Cls) (kvs : List (Str × Val)) (q : Pos) (kcls
       (slash ++ renderPos q ++ slash ++ (name ++ bracket sLast) ++ renderPos (tail.map Seg.key)) = (t', .ok v) :=
   readback_elem cls kvs q kcls nkvs name c ys tail v t' fuel hp hget hn ht hset hf
 
-/-! ## 5. full statements that stay open -/
+/-! ## 5. every path of the honoured grammar `G_ok` -/
 
-/-- **full statement (every path of the honoured grammar `G_ok`).**  `steps` is a creation path
-below the existing node `cur` at `q`: the first step may be a fresh name, `n[new()]` (fresh or
-existing `n`), `n[0]` (fresh), `n[len]`, or — below a list — `[new()]`/`[len]`; later steps are fresh
-names, `n[new()]`, `n[0]`; every element-creating step is last or followed by a name.  Then
-`d[path] = v` yields exactly `createIn`.
+/-- **unhypothesised statement (every path of `G_ok`).**  `steps` is a creation path below the
+existing node `cur` at `q`: the first step may be a fresh name, `n[new()]` (fresh or existing `n`),
+`n[0]` (fresh), `n[len]`, or — below a list — `[new()]`/`[len]`; later steps are fresh names,
+`n[new()]`, `n[0]`; every element-creating step is last or followed by a name.  Then `d[path] = v`
+yields exactly `createIn`.
 
-Proved: everything except a bare `[new()]`/`[len]` first step (`C03_create_partial`).  For that
-remaining shape the statement is false when the list is an element of a plain `list`
-(`C03_new_in_plain_list_cex`, known finding C03-c); for a list held by a key the path text is the
-same as `name[new()]`/`name[len]` from the parent dict, which `C03_create_partial` covers. -/
+**False as it stands** (`C03_create_stmt_false`): a bare `[new()]` below a list that is an element of
+a *plain* `list` raises `TypeError` (finding C03-c, in general form `C03_new_in_plain_list_raises`).
+With exactly that case excluded the statement is proved: `C03_create`. -/
 def C03_create_stmt : Prop :=
   ∀ (cls : Cls) (kvs : List (Str × Val)) (q : Pos) (cur cur' : Val) (s : CStep) (steps : List CStep) (v t' : Val),
     PlainPos q → getAt (.dict cls kvs) q = some cur → s.first → (∀ x ∈ steps, x.later) → GOk (s :: steps) →
@@ -198,6 +198,90 @@ theorem C03_create_partial (cls : Cls) (kvs : List (Str × Val)) (q : Pos) (kcls
 /-- the reference result always exists once `createIn` is defined (the node at `q` exists) -/
 theorem C03_create_total (t : Val) (q : Pos) (cur cur' : Val) (hget : getAt t q = some cur) :
     ∃ t', setAt t q cur' = some t' := setAt_isSome q t cur cur' hget
+
+/-- **`[new()]` below a list that is an element of an `n0list`** (optionally followed by later steps):
+exactly one element is appended to the addressed list. -/
+theorem C03_append_new_in_n0list (cls : Cls) (kvs : List (Str × Val)) (q0 : Pos) (i : Nat) (ys : List Val)
+    (c : Cls) (xs : List Val) (steps : List CStep) (v t' : Val) (fuel : Nat)
+    (hp : PlainPos q0) (hq0 : getAt (.dict cls kvs) q0 = some (.list .n0 ys)) (hi : ys[i]? = some (.list c xs))
+    (hsteps : ∀ x ∈ steps, x.later) (hg : GOk (.idx sNew :: steps))
+    (hset : setAt (.dict cls kvs) (q0 ++ [.idx i]) (.list c (xs ++ [fill steps v])) = some t')
+    (hf : fuel ≥ 4 * (q0.length + 2)) :
+    setItem fuel (.dict cls kvs)
+      (slash ++ renderPos (q0 ++ [.idx i]) ++ (CStep.idx sNew :: steps).flatMap renderCStep) v = (t', .ok ()) :=
+  setItem_create_idx_in_list cls kvs q0 i .n0 ys c xs sNew steps v t' fuel hp hq0 hi (Or.inl rfl) (fun _ => rfl)
+    hsteps hg hset hf
+
+/-- **`[len]` below a list that is an element of any list** (plain or `n0list`): exactly one element
+is appended (no second lookup through the enclosing list is made on this branch). -/
+theorem C03_len_in_list (cls : Cls) (kvs : List (Str × Val)) (q0 : Pos) (i : Nat) (c0 : Cls) (ys : List Val)
+    (c : Cls) (xs : List Val) (steps : List CStep) (v t' : Val) (fuel : Nat)
+    (hp : PlainPos q0) (hq0 : getAt (.dict cls kvs) q0 = some (.list c0 ys)) (hi : ys[i]? = some (.list c xs))
+    (hsteps : ∀ x ∈ steps, x.later) (hg : GOk (.idx (natStr xs.length) :: steps))
+    (hset : setAt (.dict cls kvs) (q0 ++ [.idx i]) (.list c (xs ++ [fill steps v])) = some t')
+    (hf : fuel ≥ 4 * (q0.length + 2)) :
+    setItem fuel (.dict cls kvs)
+      (slash ++ renderPos (q0 ++ [.idx i]) ++ (CStep.idx (natStr xs.length) :: steps).flatMap renderCStep) v
+        = (t', .ok ()) :=
+  setItem_create_idx_in_list cls kvs q0 i c0 ys c xs _ steps v t' fuel hp hq0 hi (Or.inr rfl)
+    (fun h => absurd h (natStr_ne_new _)) hsteps hg hset hf
+
+/-- **finding C03-c in general.**  `[new()]` directly below a list that is an element of a *plain*
+`list` raises `TypeError` — for every tree, depth and continuation — and leaves the tree as it was
+(`parent["[i]"]` is an xpath lookup only on an `n0list`). -/
+theorem C03_new_in_plain_list_raises (cls : Cls) (kvs : List (Str × Val)) (q0 : Pos) (i : Nat) (ys : List Val)
+    (c : Cls) (xs : List Val) (steps : List CStep) (v : Val) (fuel : Nat)
+    (hp : PlainPos q0) (hq0 : getAt (.dict cls kvs) q0 = some (.list .plain ys)) (hi : ys[i]? = some (.list c xs))
+    (hsteps : ∀ x ∈ steps, x.later) (hf : fuel ≥ 4 * (q0.length + 2)) :
+    setItem fuel (.dict cls kvs)
+      (slash ++ renderPos (q0 ++ [.idx i]) ++ (CStep.idx sNew :: steps).flatMap renderCStep) v
+        = (.dict cls kvs, .error .TypeError) :=
+  setItem_new_in_plain_list_raises cls kvs q0 i ys c xs steps v fuel hp hq0 hi hsteps hf
+
+/-- **C03 (every path of the honoured grammar).**  The statement `C03_create_stmt` with exactly one
+hypothesis added: when the first step is a bare `[new()]`, no plain `list` directly encloses the
+target list (`PlainListEncloses t q`: `q = q0 ++ [i]` and the node at `q0` is a plain `list`).
+First step: fresh name, `n[new()]`, `n[0]`, `n[len]` below a dict, `[new()]`/`[len]` below a list
+(held by a key, or an element of an enclosing list); later steps: fresh names, `n[new()]`, `n[0]`
+in any alternation the grammar allows.  The result is exactly `createIn`; nothing raises. -/
+theorem C03_create (cls : Cls) (kvs : List (Str × Val)) (q : Pos) (cur cur' : Val) (s : CStep) (steps : List CStep)
+    (v t' : Val) (fuel : Nat)
+    (hp : PlainPos q) (hget : getAt (.dict cls kvs) q = some cur) (hfirst : s.first)
+    (hsteps : ∀ x ∈ steps, x.later) (hg : GOk (s :: steps))
+    (hcreate : createIn cur (s :: steps) v = some cur') (hset : setAt (.dict cls kvs) q cur' = some t')
+    (hencl : s = .idx sNew → ¬ PlainListEncloses (.dict cls kvs) q)
+    (hf : fuel ≥ 4 * (q.length + 1)) :
+    setItem fuel (.dict cls kvs) (slash ++ renderPos q ++ (s :: steps).flatMap renderCStep) v = (t', .ok ()) := by
+  cases s with
+  | idx e =>
+    exact setItem_create_idx cls kvs q cur cur' e steps v t' fuel hp hget hsteps hg hcreate hset
+      (fun h => hencl (by rw [h])) hf
+  | name n =>
+    obtain ⟨kcls, nkvs, rfl⟩ : ∃ kcls nkvs, cur = .dict kcls nkvs := by
+      cases cur <;> simp [createIn] at hcreate
+      exact ⟨_, _, rfl⟩
+    exact C03_create_partial cls kvs q kcls nkvs (.name n) steps v cur' t' fuel hp hget hfirst (by intro e h; cases h)
+      hsteps hg hcreate hset hf
+  | elem n e =>
+    obtain ⟨kcls, nkvs, rfl⟩ : ∃ kcls nkvs, cur = .dict kcls nkvs := by
+      cases cur <;> simp [createIn] at hcreate
+      exact ⟨_, _, rfl⟩
+    exact C03_create_partial cls kvs q kcls nkvs (.elem n e) steps v cur' t' fuel hp hget hfirst (by intro e h; cases h)
+      hsteps hg hcreate hset hf
+
+/-- the added hypothesis is needed: the unhypothesised statement is refuted by the witness of C03-c -/
+theorem C03_create_stmt_false : ¬ C03_create_stmt := by
+  intro h
+  obtain ⟨n, hn⟩ := h .n0 [(['x'], .list .plain [.list .plain []])] [.key ['x'], .idx 0] (.list .plain [])
+    (.list .plain [.str ['V']]) (.idx sNew) [] (.str ['V'])
+    (.dict .n0 [(['x'], .list .plain [.list .plain [.str ['V']]])])
+    ⟨⟨by simp, by decide, by simp⟩, trivial⟩ (by decide) trivial (by simp) trivial (by decide) (by decide)
+  have h1 := hn (max n 12) (Nat.le_max_left _ _)
+  have h2 := C03_new_in_plain_list_raises .n0 [(['x'], .list .plain [.list .plain []])] [.key ['x']] 0
+    [.list .plain []] .plain [] [] (.str ['V']) (max n 12) ⟨⟨by simp, by decide, by simp⟩, trivial⟩ (by decide)
+    (by decide) (by simp) (Nat.le_max_right _ _)
+  rw [show ([Seg.key ['x']] ++ [Seg.idx 0] : Pos) = [.key ['x'], .idx 0] from rfl, h1] at h2
+  cases h2
 
 /-- **full statement (read back).**  After a successful `d[xpath] = v` the value reads back
 through the same path with `new()` replaced by `last()`.  (Proved for the shapes above:
@@ -314,6 +398,54 @@ example : setItem 40 exTree2 ['/', '/', 'a', '/', 'k', '[', 'n', 'e', 'w', '(', 
         · exact pk_x
         · exact ⟨pk_l, Or.inr rfl⟩)
     (by simp [GOk, CStep.isName]) rfl (by decide) (by decide)
+
+/-- lists inside lists: `x` is an `n0list` holding an `n0list`, `p` a plain list holding a plain list -/
+def exTree3 : Val :=
+  .dict .n0 [(['x'], .list .n0 [.list .n0 [.int 1]]), (['p'], .list .plain [.list .plain []])]
+theorem pk_p : PlainKey ['p'] := ⟨by simp, by decide, by simp⟩
+
+/-- `d['//x[0][new()]'] = 5` appends to the inner list (`C03_append_new_in_n0list`) -/
+example : setItem 40 exTree3 ['/', '/', 'x', '[', '0', ']', '[', 'n', 'e', 'w', '(', ')', ']'] (.int 5)
+    = (.dict .n0 [(['x'], .list .n0 [.list .n0 [.int 1, .int 5]]), (['p'], .list .plain [.list .plain []])], .ok ()) :=
+  C03_append_new_in_n0list .n0 _ [.key ['x']] 0 [.list .n0 [.int 1]] .n0 [.int 1] [] (.int 5) _ 40 ⟨pk_x, trivial⟩
+    rfl rfl (by simp) trivial (by decide) (by decide)
+
+/-- `d['//p[0][0]'] = 5` (`len = 0`) appends below a *plain* list (`C03_len_in_list`) -/
+example : setItem 40 exTree3 ['/', '/', 'p', '[', '0', ']', '[', '0', ']'] (.int 5)
+    = (.dict .n0 [(['x'], .list .n0 [.list .n0 [.int 1]]), (['p'], .list .plain [.list .plain [.int 5]])], .ok ()) :=
+  C03_len_in_list .n0 _ [.key ['p']] 0 .plain [.list .plain []] .plain [] [] (.int 5) _ 40 ⟨pk_p, trivial⟩
+    rfl rfl (by simp) trivial (by decide) (by decide)
+
+/-- `d['//x[0][new()]/m'] = 5`: bare `[new()]` first step followed by a name (`C03_create`; the
+enclosing list is an `n0list`) -/
+example : setItem 40 exTree3 ['/', '/', 'x', '[', '0', ']', '[', 'n', 'e', 'w', '(', ')', ']', '/', 'm'] (.int 5)
+    = (.dict .n0 [(['x'], .list .n0 [.list .n0 [.int 1, .dict .n0 [(['m'], .int 5)]]]),
+        (['p'], .list .plain [.list .plain []])], .ok ()) :=
+  C03_create .n0 _ [.key ['x'], .idx 0] (.list .n0 [.int 1]) _ (.idx ['n', 'e', 'w', '(', ')']) [.name ['m']] (.int 5) _ 40
+    ⟨pk_x, trivial⟩ rfl trivial (by intro x hx; simp at hx; subst hx; exact pk_m) (by simp [GOk, CStep.isName])
+    rfl (by decide)
+    (by
+      rintro _ ⟨q0, i, ys, hq, hg⟩
+      obtain ⟨rfl, hi⟩ := List.append_inj' (show [Seg.key ['x']] ++ [Seg.idx 0] = q0 ++ [Seg.idx i] from hq) rfl
+      simp [getAt, child, lookup] at hg)
+    (by decide)
+
+/-- `d['//x[new()]'] = 5`: bare `[new()]` below a list held by a key (`C03_create`, the text of `x[new()]`) -/
+example : setItem 40 exTree3 ['/', '/', 'x', '[', 'n', 'e', 'w', '(', ')', ']'] (.int 5)
+    = (.dict .n0 [(['x'], .list .n0 [.list .n0 [.int 1], .int 5]), (['p'], .list .plain [.list .plain []])], .ok ()) :=
+  C03_create .n0 _ [.key ['x']] (.list .n0 [.list .n0 [.int 1]]) _ (.idx ['n', 'e', 'w', '(', ')']) [] (.int 5) _ 40
+    ⟨pk_x, trivial⟩ rfl trivial (by simp) trivial rfl (by decide)
+    (by
+      rintro _ ⟨q0, i, ys, hq, _⟩
+      have := (List.append_inj' (show [] ++ [Seg.key ['x']] = q0 ++ [Seg.idx i] from hq) rfl).2
+      cases this)
+    (by decide)
+
+/-- `d['//p[0][new()]'] = 5` raises: the general form of C03-c on this tree (`C03_new_in_plain_list_raises`) -/
+example : setItem 40 exTree3 ['/', '/', 'p', '[', '0', ']', '[', 'n', 'e', 'w', '(', ')', ']'] (.int 5)
+    = (exTree3, .error .TypeError) :=
+  C03_new_in_plain_list_raises .n0 _ [.key ['p']] 0 [.list .plain []] .plain [] [] (.int 5) 40 ⟨pk_p, trivial⟩
+    rfl rfl (by simp) (by decide)
 
 /-- creations the code honours, evaluated directly (relative spellings as a user writes them) -/
 example : setItem 40 exTree ['a', '/', 'n', '/', 'm'] (.int 5)
